@@ -29,6 +29,7 @@ DEVS = {
     "C08": [("Instance_noreset.cfg", "RunFunctional"), ("Instance_privleak.cfg", "RunFunctional"),
             ("Instance_aliasrates.cfg", ("RunFunctional", "ResultsImmutable"))],
     "C09": [("Instance_writescfg.cfg", "CallerUntouched")],
+    "C06": [("Instance_latecheck.cfg", "BadCallRefused")],
     "C18": [("Instance_ctorderef.cfg", "CanConstructEmpty"), ("Instance_cachector.cfg", "SetConfigRunEquals")],
 }
 RULE = ("histories = the call histories (Construct / SetConfig / Optimize / PerturbNp / PerturbStd, 2 configurations, bad "
@@ -41,14 +42,58 @@ TASKS = {
     2: {"vars": [{"t": "cont", "lb": 0.0, "ub": 5.0}, {"t": "cont", "lb": -4.0, "ub": 0.0}, {"t": "cont", "lb": -1.0, "ub": 1.0}],
         "family": "rastrigin", "shift": [1.0, -1.0, 0.25], "coef": [1.0, 1.0, 1.0], "nobj": 1, "weights": None, "minmax": "max",
         "seed": 7, "encoding": "cont", "dim": 3},
+    # a permutation task with STRING items: anything that depends on hashing (set order) differs between interpreters
+    3: {"vars": [{"t": "perm", "n": 6}], "family": "sphere", "shift": [0.0], "coef": [1.0], "nobj": 1, "weights": None, "minmax": "min",
+        "seed": 42, "encoding": "perm", "dim": 1},
 }
+MODEL_TASKS = (1, 2)         # the task values of Instance.tla; task 3 only appears in the cross-interpreter reference events
+
+
+# invalid calls on a configured instance (C06): each must be refused with ValueError before any cycle runs
+BAD_CALLS = [("mode", {"mode": "warp"}), ("workers0", {"mode": "thread", "workers": 0}), ("workers-", {"workers": -3}), ("weights", {})]
+BAD_WEIGHTS_TASK = {"vars": [{"t": "multiobj", "lbs": [-1.0, 0.0], "ubs": [1.0, 2.0]}], "family": "sphere", "shift": [0.0, 1.0], "coef": [1.0, 1.0],
+                    "nobj": 2, "weights": [1.0, 0.5, 2.0], "minmax": "min", "seed": 5, "encoding": "multiobj", "dim": 2}
+
+
+_CFG_CACHE: dict = {}
 
 
 def cfg_dicts(opt: str) -> dict:
+    """two configurations per class: the documented one with a cycle bound; and one that differs in EVERY numeric
+    parameter the config model lets us change (population 1.5x, jittered algorithm parameters, early stopping), so that
+    a value cached from an earlier configuration cannot go unnoticed"""
+    if opt in _CFG_CACHE:
+        return _CFG_CACHE[opt]
+    import pyvolutionary
+    C = getattr(pyvolutionary, gen.FIX[opt]["config_class"])
     base = dict(gen.FIX[opt]["config"])
     c1 = {**base, "max_cycles": 3, "fitness_error": None, "early_stopping": None}
     c2 = {**base, "max_cycles": 4, "fitness_error": None, "early_stopping": {"patience": 1, "min_delta": 1e9}}
-    return {1: c1, 2: c2}
+    rng = random.Random(sum(map(ord, opt)))
+    for k, v in list(c2.items()):
+        if k in ("max_cycles", "fitness_error", "early_stopping"):
+            continue
+        for factor in ((2.0, 1.5) if k == "population_size" else (1.1, 0.9, 1.5, 0.5)):
+            if isinstance(v, bool) or v is None or isinstance(v, (str, dict)):
+                break
+            if isinstance(v, int):
+                cand = max(1, int(round(v * factor))) if k == "population_size" else v + rng.choice([1, 2])
+            elif isinstance(v, float):
+                cand = v * factor
+            elif isinstance(v, list) and all(isinstance(q, (int, float)) and not isinstance(q, bool) for q in v):
+                cand = [q * factor if isinstance(q, float) else q for q in v]
+            else:
+                break
+            trial = {**c2, k: cand}
+            try:
+                C(**trial)
+                if gen.precondition(opt, trial, TASKS[1]) is None:
+                    c2 = trial
+                    break
+            except Exception:
+                continue
+    _CFG_CACHE[opt] = {1: c1, 2: c2}
+    return _CFG_CACHE[opt]
 
 
 def bad_dicts(opt: str) -> list[dict]:
@@ -115,9 +160,31 @@ def replay(opt: str, histories: list[list], refs: dict) -> list[dict]:
                 r = refs.get(f"{opt}/{k}/{t}")
                 if r is not None:
                     events.append({"ev": "Ref", "t": t, "cfgid": iid(dump_cfg(C(**cds[k]))), "raised": r["raised"],
-                                   "digest": did(r["digest"]) if r["digest"] else 0})
+                                   "seedtype": bool(r.get("seedtype")), "digest": did(r["digest"]) if r["digest"] else 0})
+        if hid == 0:
+            # cross-interpreter reproducibility on the integer-coded / string-labelled task: reference from another
+            # interpreter (different PYTHONHASHSEED), then the same key here on a fresh instance
+            r = refs.get(f"{opt}/1/3")
+            if r is not None and r["raised"] == "":
+                c1 = C(**cds[1])
+                events.append({"ev": "Ref", "t": 3, "cfgid": iid(dump_cfg(c1)), "raised": "", "seedtype": False, "digest": did(r["digest"])})
+                ev3 = {"ev": "Construct", "c": iid(dump_cfg(c1)), "raised": ""}
+                events.append(ev3)
+                e3 = {"ev": "Optimize", "t": 3, "cfgid": iid(dump_cfg(c1)), "cfgafter": iid(dump_cfg(c1)), "caller_same": True, "task_same": True, "earlier_same": True}
+                try:
+                    with _quiet(), warnings.catch_warnings(), np.errstate(all="ignore"):
+                        warnings.simplefilter("ignore")
+                        res3 = X(c1).optimize(T.build_task(TASKS[3]))
+                    e3["raised"], e3["digest"] = "", did(digest(res3))
+                except Exception as ex:
+                    e3["raised"], e3["digest"] = type(ex).__name__, 0
+                if e3["raised"] == "":
+                    events.append(e3)
+                else:
+                    events.pop()
         o, caller, returned = None, None, []
         nbad = 0
+        nbadcall = hid
         for (a, x) in h:
             e = {"ev": a}
             with warnings.catch_warnings(), np.errstate(all="ignore"):
@@ -164,6 +231,31 @@ def replay(opt: str, histories: list[list], refs: dict) -> list[dict]:
                     e["caller_same"] = dump_cfg(caller) == c0
                     e["task_same"] = json.dumps(task.model_dump(), sort_keys=True, default=repr) == t0
                     e["earlier_same"] = all(digest(r) == d0 for r, d0 in returned)
+                elif a == "OptimizeBadCall":
+                    if o is None or o.configuration is None:
+                        continue
+                    variant = BAD_CALLS[nbadcall % len(BAD_CALLS)]
+                    nbadcall += 1
+                    desc = TASKS[x] if variant[0] != "weights" else BAD_WEIGHTS_TASK
+                    task = T.build_task(desc)
+                    cnt = {"n": 0}
+                    orig = o.optimization_step
+
+                    def counting(_orig=orig, _cnt=cnt):
+                        _cnt["n"] += 1
+                        return _orig()
+                    o.optimization_step = counting
+                    T.REC.reset()
+                    e["t"], e["variant"] = x, variant[0]
+                    try:
+                        with _quiet():
+                            o.optimize(task, **variant[1])
+                        e["raised"] = ""
+                    except Exception as ex:
+                        e["raised"] = "ValidationError" if type(ex).__name__ == "ValidationError" else type(ex).__name__
+                    finally:
+                        del o.optimization_step
+                    e["steps"] = cnt["n"]
                 elif a == "PerturbNp":
                     np.random.random(3)
                 elif a == "PerturbStd":
@@ -184,13 +276,18 @@ def reference_main():
         C = getattr(pyvolutionary, gen.FIX[opt]["config_class"])
         for k, cd in cfg_dicts(opt).items():
             for t, td in TASKS.items():
+                if t == 3 and k != 1:
+                    continue
                 try:
                     with _quiet(), warnings.catch_warnings():
                         warnings.simplefilter("ignore")
                         res = X(C(**cd)).optimize(T.build_task(td))
                     refs[f"{opt}/{k}/{t}"] = {"raised": "", "digest": digest(res)}
                 except Exception as ex:
-                    refs[f"{opt}/{k}/{t}"] = {"raised": type(ex).__name__, "digest": "", "msg": str(ex)[:200]}
+                    from .corpus import crash_site
+                    site = crash_site(sys.exc_info()[2])
+                    refs[f"{opt}/{k}/{t}"] = {"raised": type(ex).__name__, "digest": "", "msg": str(ex)[:200], "site": site,
+                                              "seedtype": isinstance(ex, TypeError) and site == "abstract.optimize"}
     json.dump(refs, open(outp, "w"))
 
 
@@ -275,8 +372,11 @@ def main_for(chk: Check, pid: str):
     refs = references(opts)
     jobs = []
     pool = [h for h in hs if interesting(h)]
+    badcall = [h for h in hs if any(a == "OptimizeBadCall" for a, _ in h) or any(a == "SetConfig" and x == -1 for a, x in h)]
     for opt in opts:
-        if thorough:
+        if pid == "C06":
+            mine = (badcall if thorough else rng.sample(badcall, min(25, len(badcall))))
+        elif thorough:
             mine = hs
         else:
             mine = cov + rng.sample(pool, min(60, len(pool)))
@@ -300,7 +400,9 @@ def main_for(chk: Check, pid: str):
             continue
         r = byid[rid]
         key = {"optimizer": r["opt"]}
-        if clause in ("C08.crash", "C06.replay_crash", "C07.seedtype"):
+        if clause == "C06.reject":
+            key["variant"] = next((e.get("variant", "?") for e in r["events"] if e["ev"] == "OptimizeBadCall" and not (e.get("raised") in ("ValueError", "ValidationError") and e.get("steps") == 0)), "?")
+        if clause in ("C08.crash", "C07.crash_fresh", "C07.seedtype"):
             key["exception"] = next((e["raised"] for e in r["events"] if e.get("raised") and e["ev"] in ("Optimize", "Ref")), "?")
         chk.violation(clause, key, {"history": r["shape"], "events": r["events"]})
     for r in records:
